@@ -604,6 +604,10 @@ impl World for Acct {
 fn dpt(world: &str, d: usize) -> usize {
     std::env::var(format!("C20A_{}", world.replace('-', "_"))).ok().and_then(|x| x.parse().ok()).unwrap_or(d)
 }
+/// TEMPORARY (tuning): wall cap multiplier.
+fn wl(s: u64) -> u64 {
+    s * std::env::var("C20A_WALLX").ok().and_then(|x| x.parse().ok()).unwrap_or(1)
+}
 
 fn add(ctx: u8, signers: &[u8], policies: &[u8]) -> Op {
     Op::AddRule { ctx, signers: signers.to_vec(), policies: policies.to_vec(), valid: None }
@@ -611,7 +615,6 @@ fn add(ctx: u8, signers: &[u8], policies: &[u8]) -> Op {
 
 fn acct_worlds(tier: Tier) -> Vec<(Acct, Bounds)> {
     let th = tier == Tier::Thorough;
-    let wall = tier.pick(40, 420);
     let later = Some(START + 100);
     let mut out = vec![];
 
@@ -651,7 +654,28 @@ fn acct_worlds(tier: Tier) -> Vec<(Acct, Bounds)> {
                 max_targets: 8,
                 leaf_adds: false,
             },
-            Bounds::new(dpt("acct-rule-lifecycle", tier.pick(5, 6)), wall),
+            Bounds::new(dpt("acct-rule-lifecycle", 5), wl(tier.pick(8, 90))),
+        ));
+    }
+    // (a') the same registry, lean alphabet (three rules of one type that exclude / admit each
+    //      other + one of another type, removal at every position), longer histories
+    {
+        out.push((
+            Acct {
+                name: "acct-rule-lifecycle-deep",
+                ns: 2,
+                np: 1,
+                seeds: vec![("constructor-rule", vec![])],
+                adds: vec![(0, vec![0], vec![]), (0, vec![0, 1], vec![]), (0, vec![1, 0], vec![]), (0, vec![1], vec![0]), (1, vec![0], vec![])],
+                remove_rule: true,
+                renames: vec![],
+                valids: vec![],
+                edit_signers: vec![],
+                edit_policies: vec![],
+                max_targets: 8,
+                leaf_adds: false,
+            },
+            Bounds::new(dpt("acct-rule-lifecycle-deep", tier.pick(6, 8)), wl(tier.pick(4, 60))),
         ));
     }
 
@@ -678,7 +702,7 @@ fn acct_worlds(tier: Tier) -> Vec<(Acct, Bounds)> {
                 max_targets: 3,
                 leaf_adds: true,
             },
-            Bounds::new(dpt("acct-signer-policy-edits", tier.pick(5, 7)), wall),
+            Bounds::new(dpt("acct-signer-policy-edits", tier.pick(5, 7)), wl(tier.pick(6, 60))),
         ));
     }
     // (b') thorough only: the same with rules added in between (new ids, third rule)
@@ -698,7 +722,7 @@ fn acct_worlds(tier: Tier) -> Vec<(Acct, Bounds)> {
                 max_targets: 3,
                 leaf_adds: false,
             },
-            Bounds::new(dpt("acct-signer-policy-edits-growing", 5), wall),
+            Bounds::new(dpt("acct-signer-policy-edits-growing", 5), wl(45)),
         ));
     }
 
@@ -743,7 +767,7 @@ fn acct_worlds(tier: Tier) -> Vec<(Acct, Bounds)> {
                 max_targets: 3,
                 leaf_adds: false,
             },
-            Bounds::new(dpt("acct-limit-rules", tier.pick(3, 4)), wall),
+            Bounds::new(dpt("acct-limit-rules", tier.pick(3, 4)), wl(tier.pick(2, 10))),
         ));
     }
 
@@ -769,7 +793,7 @@ fn acct_worlds(tier: Tier) -> Vec<(Acct, Bounds)> {
                 max_targets: 2,
                 leaf_adds: false,
             },
-            Bounds::new(dpt("acct-limit-signers", tier.pick(3, 4)), wall),
+            Bounds::new(dpt("acct-limit-signers", tier.pick(3, 4)), wl(tier.pick(2, 10))),
         ));
     }
 
@@ -795,7 +819,7 @@ fn acct_worlds(tier: Tier) -> Vec<(Acct, Bounds)> {
                 max_targets: 2,
                 leaf_adds: false,
             },
-            Bounds::new(dpt("acct-limit-policies", tier.pick(3, 4)), wall),
+            Bounds::new(dpt("acct-limit-policies", tier.pick(3, 4)), wl(tier.pick(2, 10))),
         ));
     }
     out
@@ -1005,7 +1029,6 @@ impl World for Comp {
 
 fn comp_worlds(tier: Tier) -> Vec<(Comp, Bounds)> {
     let th = tier == Tier::Thorough;
-    let wall = tier.pick(40, 420);
     let mut out = vec![];
     // (a) every hook x {M1, M2, M3} from the empty registry (M4 is only queried)
     {
@@ -1020,7 +1043,21 @@ fn comp_worlds(tier: Tier) -> Vec<(Comp, Bounds)> {
         }
         out.push((
             Comp { name: "compliance-modules", nm: 4, seeds: vec![("empty".into(), vec![])], alphabet, limit: false, query: vec![0, 1, 2, 3] },
-            Bounds::new(dpt("compliance-modules", tier.pick(5, 6)), wall),
+            Bounds::new(dpt("compliance-modules", 5), wl(tier.pick(5, 40))),
+        ));
+    }
+    // (a') two hooks x three modules, long histories (the hooks are independent lists; 16 x 16
+    //      ordered states, the search saturates)
+    {
+        let mut alphabet = vec![];
+        for h in [0u8, 3] {
+            for k in 0..3u8 {
+                alphabet.push((h, k));
+            }
+        }
+        out.push((
+            Comp { name: "compliance-modules-deep", nm: 4, seeds: vec![("empty".into(), vec![])], alphabet, limit: false, query: vec![0, 1, 2, 3] },
+            Bounds::new(dpt("compliance-modules-deep", tier.pick(7, 9)), wl(tier.pick(3, 20))),
         ));
     }
     // (b) one hook with 19 modules (one seed per hook variant); the next hook is empty
@@ -1032,7 +1069,7 @@ fn comp_worlds(tier: Tier) -> Vec<(Comp, Bounds)> {
         let alphabet = vec![(0, 19), (0, 20), (0, 21), (0, 0), (0, 9), (0, 18), (1, 0), (1, 19)];
         out.push((
             Comp { name: "compliance-modules-limit", nm: 22, seeds, alphabet, limit: true, query: vec![0, 9, 18, 19, 20, 21] },
-            Bounds::new(dpt("compliance-modules-limit", tier.pick(3, 4)), wall),
+            Bounds::new(dpt("compliance-modules-limit", tier.pick(3, 4)), wl(tier.pick(2, 10))),
         ));
     }
     out
@@ -1077,6 +1114,12 @@ pub fn run(tier: Tier, r: &mut Runner) {
         ]);
     }
     if std::env::var("C20A_ONLY").is_ok() {
-        std::process::exit(0); // TEMPORARY (tuning)
+        // TEMPORARY (tuning)
+        if r.exploring() {
+            let old = std::mem::replace(r, Runner::Explore(vh::report::Report::new("C20", tier, "model_checking")));
+            if let Runner::Explore(rep) = old {
+                std::process::exit(rep.finish());
+            }
+        }
     }
 }
